@@ -198,6 +198,9 @@ def short(q):
 # ------------------------------------------------------------------ program
 
 
+CONSTS = {}
+
+
 class Program:
     def __init__(self, crates, tree_hash):
         self.crates = crates
@@ -233,6 +236,13 @@ class Program:
                     self.trait_defaults[m["q"]] = True
         self.workspace_crates = {c for (c, _t) in crates}
         self._cg = None
+        CONSTS.clear()
+        for _ in range(2):
+            for b in self.bodies:
+                if b["dk"].startswith(("Const", "AssocConst")) and b["q"] not in CONSTS:
+                    v = const_eval(b["body"], {})
+                    if v is not None:
+                        CONSTS[b["q"]] = v
 
     # ---- lookup helpers
     def fn(self, q):
@@ -340,6 +350,13 @@ def unparen(n):
     return n
 
 
+def _operand_str(e):
+    v = const_eval(e, {})
+    if v is not None and not isinstance(v, bool):
+        return str(v)
+    return place_str(e)
+
+
 def cmp_norm(n, negate=False):
     """normalise a comparison to (lhs_place, op, rhs_place); None if n is not a comparison.
     `!(a < b)` becomes a >= b; operands are rendered with place_str."""
@@ -348,11 +365,13 @@ def cmp_norm(n, negate=False):
         return None
     if n.get("k") == "un" and n.get("op") == "!":
         return cmp_norm(n["e"], not negate)
+    if n.get("k") == "call" and n.get("q") == "anyhow::__private::not" and n.get("a"):
+        return cmp_norm(n["a"][0], not negate)
     if n.get("k") == "bin" and n.get("op") in _FLIP:
         op = n["op"]
         if negate:
             op = _NEG[op]
-        return (place_str(n["l"]), op, place_str(n["r"]))
+        return (_operand_str(n["l"]), op, _operand_str(n["r"]))
     # method forms a.lt(b) etc.
     if n.get("k") == "mcall" and n.get("name") in ("lt", "le", "gt", "ge", "eq", "ne") and n.get("a"):
         op = {"lt": "<", "le": "<=", "gt": ">", "ge": ">=", "eq": "==", "ne": "!="}[n["name"]]
@@ -414,6 +433,8 @@ def const_eval(n, env):
         return n["v"]
     if k == "path" and n.get("r") == "local":
         return env.get(n["hid"], env.get(n["name"]))
+    if k == "path" and n.get("r") == "def" and n.get("dk", "").startswith(("Const", "AssocConst")):
+        return CONSTS.get(n.get("q"))
     if k == "cast":
         return const_eval(n["e"], env)
     if k == "bin":
